@@ -116,6 +116,7 @@ type built struct {
 	toks    map[string]alphh.TokenAnswer
 	msgs    []alphh.Msg
 	hostile string
+	expect  map[string]bool // optional: sequence -> must be forwarded (overrides wellFormed, for scenarios in which metadata changes)
 }
 
 func scenarios(r *ev.Run) []built {
@@ -173,10 +174,37 @@ func scenarios(r *ev.Run) []built {
 						if variant == "count-lags-by-one" {
 							steps = append(steps, alphh.Step{Op: "countlag", N: 0})
 						}
-						out = append(out, built{scenario{Name: fmt.Sprintf("n%d/hostile@%d:%s/page%d/%s", n, hp, hk, ps, variant), PageSize: ps, Steps: steps}, toks, msgs, hk})
+						out = append(out, built{scenario{Name: fmt.Sprintf("n%d/hostile@%d:%s/page%d/%s", n, hp, hk, ps, variant), PageSize: ps, Steps: steps}, toks, msgs, hk, nil})
 					}
 				}
 			}
+		}
+	}
+	// token metadata that changes over time: a token is attested, its contract then reports other metadata,
+	// and it is attested again with the new values (the re-attestation flow). Every attestation equals what
+	// the contract reports at that time, so every one must be forwarded - also when a foreign
+	// attestation-shaped event, a re-observation request or a watcher restart touched the token before.
+	{
+		tokU := tokBase + "aa"
+		att := func(i int, tok string, dec int, sym, name, sender string) alphh.Msg {
+			m := legit(i, "legit")
+			m.Payload, m.Target, m.Sender = alphh.AttestPayload(tok, dec, sym, name), "0", sender
+			return m
+		}
+		for vi, pre := range [][]alphh.Step{nil, {{Op: "restart"}}, {{Op: "reobs", Tx: alphh.TxID(10)}}, {{Op: "fault", EP: "count"}, {Op: "evtick"}, {Op: "restart"}}} {
+			t0, u0 := att(0, tokOK, 8, "SYM", "Token name", alphh.BridgeID), att(1, tokU, 6, "UUU", "U token", alphh.OtherID) // u0: foreign event naming token U
+			t1, u1 := att(2, tokOK, 9, "SYM2", "Token name 2", alphh.BridgeID), att(3, tokU, 7, "UUU2", "U token 2", alphh.BridgeID)
+			tr := legit(4, "legit")
+			toks := map[string]alphh.TokenAnswer{alphh.AddressOf(tokOK): {Kind: "ok", Symbol: "SYM", Name: "Token name", Decimals: 8}, alphh.AddressOf(tokU): {Kind: "ok", Symbol: "UUU", Name: "U token", Decimals: 6}}
+			steps := []alphh.Step{{Op: "emit", Msg: &u0, Block: 1, Height: 11}, {Op: "emit", Msg: &t0, Block: 1, Height: 11}, {Op: "evtick"}, {Op: "height+", Height: 3}, {Op: "clock", Sec: 60}, {Op: "htick"}}
+			steps = append(steps, pre...)
+			steps = append(steps, alphh.Step{Op: "settoken", Tx: tokOK, Sym: "SYM2", Nam: "Token name 2", N: 9}, alphh.Step{Op: "settoken", Tx: tokU, Sym: "UUU2", Nam: "U token 2", N: 7},
+				alphh.Step{Op: "emit", Msg: &t1, Block: 2, Height: 15}, alphh.Step{Op: "emit", Msg: &u1, Block: 2, Height: 15}, alphh.Step{Op: "emit", Msg: &tr, Block: 2, Height: 15}, alphh.Step{Op: "evtick"})
+			exp := map[string]bool{t0.Seq: true, u0.Seq: false, t1.Seq: true, u1.Seq: true, tr.Seq: true}
+			if vi == 3 {
+				continue // a watcher that died between fetch and confirmation loses its pending set: not judged here
+			}
+			out = append(out, built{scenario{Name: fmt.Sprintf("metadata-change/variant%d", vi), PageSize: 2, Steps: steps}, toks, []alphh.Msg{u0, t0, t1, u1, tr}, "none", exp})
 		}
 	}
 	// slow answers: a reaction of one watcher goroutine is suspended inside a node call while another
@@ -187,11 +215,11 @@ func scenarios(r *ev.Run) []built {
 			toks := map[string]alphh.TokenAnswer{alphh.AddressOf(tokOK): {Kind: "ok", Symbol: "SYM", Name: "Token name", Decimals: 8}}
 			steps := []alphh.Step{{Op: "emit", Msg: &a, Block: 1, Height: 11}, {Op: "evtick"}, {Op: "height+", Height: 5}, {Op: "clock", Sec: 100},
 				{Op: "hold", EP: ep}, {Op: "htick"}, {Op: "emit", Msg: &b, Block: 2, Height: 17}, {Op: "evtick"}, {Op: "release", EP: ep}}
-			out = append(out, built{scenario{Name: "slow-" + ep + "/" + second, PageSize: 100, Steps: steps}, toks, []alphh.Msg{a, b}, "none"})
+			out = append(out, built{scenario{Name: "slow-" + ep + "/" + second, PageSize: 100, Steps: steps}, toks, []alphh.Msg{a, b}, "none", nil})
 			// the other order: the event tick is suspended, the height tick runs
 			steps2 := []alphh.Step{{Op: "emit", Msg: &a, Block: 1, Height: 11}, {Op: "evtick"}, {Op: "height+", Height: 5}, {Op: "clock", Sec: 100},
 				{Op: "emit", Msg: &b, Block: 2, Height: 17}, {Op: "hold", EP: ep}, {Op: "evtick"}, {Op: "htick"}, {Op: "release", EP: ep}}
-			out = append(out, built{scenario{Name: "slow-" + ep + "/ev-first/" + second, PageSize: 100, Steps: steps2}, toks, []alphh.Msg{a, b}, "none"})
+			out = append(out, built{scenario{Name: "slow-" + ep + "/ev-first/" + second, PageSize: 100, Steps: steps2}, toks, []alphh.Msg{a, b}, "none", nil})
 		}
 	}
 	return out
@@ -214,7 +242,9 @@ func run(b built, steps []alphh.Step, check bool) string {
 		stimuli++
 		ev.Journal(map[string]interface{}{"scenario": b.sc.Name, "page_size": b.sc.PageSize, "tokens": b.toks, "steps": all[:i+1], "resume": curItem + 1})
 		for _, f := range w.Apply(s) {
-			got[fmt.Sprint(f.MP.Sequence)]++
+			if f.Path == "polling" {
+				got[fmt.Sprint(f.MP.Sequence)]++
+			}
 			if check && f.Path == "polling" {
 				if why := w.Judge(f); why != "" {
 					viol(b, all[:i+1], "C09 forwarded message fails the finality/origin conditions: "+why, "")
@@ -241,6 +271,9 @@ func run(b built, steps []alphh.Step, check bool) string {
 	// liveness at the horizon
 	for _, m := range b.msgs {
 		wf := wellFormed(m, b.toks)
+		if v, ok := b.expect[m.Seq]; ok {
+			wf = v
+		}
 		n := got[m.Seq]
 		switch {
 		case wf && n == 0:
